@@ -199,6 +199,40 @@ class TList(TRefBase):
         return f"List[{self.v!r}]"
 
 
+class TAList(TRefBase):
+    """Mutable list modelled as (length, array index -> element): friendlier to E-matching than z3
+    sequences when invariants quantify over positions."""
+    _DT: dict = {}
+
+    def __init__(self, v: Ty):
+        self.v = v
+
+    def _dt(self):
+        k = str(self.v.sort())
+        if k not in TAList._DT:
+            nm = "AList_" + "".join(c if c.isalnum() else "_" for c in k)
+            TAList._DT[k] = z3.TupleSort(nm, [z3.IntSort(), z3.ArraySort(z3.IntSort(), self.v.sort())])
+        return TAList._DT[k]
+
+    def content_sort(self):
+        return self._dt()[0]
+
+    def mk(self, n, arr):
+        return self._dt()[1](n, arr)
+
+    def length(self, c):
+        return self._dt()[2][0](c)
+
+    def elems(self, c):
+        return self._dt()[2][1](c)
+
+    def empty(self):
+        return self.mk(z3.IntVal(0), z3.K(z3.IntSort(), z3.Const("alist_dflt_" + str(self.v.sort()), self.v.sort())))
+
+    def __repr__(self):
+        return f"AList[{self.v!r}]"
+
+
 class TObj(TRefBase):
     """Reference to an instance of a class; fields are declared in CLASSES."""
 
@@ -604,6 +638,14 @@ class Path:
         if isinstance(v, LazyContainer):
             t2 = ty.inner if isinstance(ty, TOpt) else ty
             return self.resolve_lazy(v, t2).z
+        if isinstance(v, ConcreteSeq) and isinstance(ty.inner if isinstance(ty, TOpt) else ty, TAList):
+            t2 = ty.inner if isinstance(ty, TOpt) else ty
+            c = t2.empty()
+            arr, n = t2.elems(c), 0
+            for x in v.items:
+                arr = z3.Store(arr, n, self.inject(t2.v, x))
+                n += 1
+            return self.new_ref(t2, t2.mk(z3.IntVal(n), arr)).z
         if isinstance(v, ConcreteSeq) and isinstance(ty.inner if isinstance(ty, TOpt) else ty, TList):
             t2 = ty.inner if isinstance(ty, TOpt) else ty
             zs = [z3.Unit(self.inject(t2.v, x)) for x in v.items]
